@@ -128,7 +128,7 @@ func parseArchInto(ret *Arch, arch string) error {
 func (set *ArchSet) Matches(other *Arch) bool {
 	/* If [!amd64 sparc] matches gnu-linux-any */
 
-	if len(set.Architectures) == 0 {
+	if set == nil || len(set.Architectures) == 0 {
 		/* We're not a thing. Always true. */
 		return true
 	}
